@@ -185,17 +185,19 @@ def child_detect_faults(job):
 BENIGN_WORDS = ("alpha beta gamma delta lorem ipsum dolor sit amet hello world caption line two "
                 "quick brown fox over under yes no ok then again music wait what now "
                 "42 3rd 1 it's (laughs) MAN: rock&roll a<b x>y café ♪ naïve 100% [door] ... -- ¿qué? "
-                "\"quoted\" 'single' 😀 a&amp;b &lt; tab\there C:\\dir 5/6 #1 @home =").split(" ")
+                "\"quoted\" 'single' 😀 a&amp;b &lt; tab\there C:\\dir 5/6 #1 @home = "
+                "… œuvre €5 wait… ½ ™ ñ ¡hola! abcdefghijklmnopqrstuvwxyz ABCDEFGHIJKLMNOPQRSTUVWXYZ012345").split(" ")
 
 
 def benign_text(rng):
-    return " ".join(rng.choice(BENIGN_WORDS) for _ in range(rng.randint(1, 4)))
+    n = rng.randint(1, 4) if rng.random() < 0.8 else rng.randint(5, 9)   # long lines get wrapped by the SCC writer
+    return " ".join(rng.choice(BENIGN_WORDS) for _ in range(n))
 
 
 def benign_recipe(rng, abs_units=False):
     """A caption set whose visible text carries no other format's marker.  Explored domain: cues >= 1 s long and
     >= 5 s apart (sub-frame / flash cues and overlapping pre-roll are degenerate timings that belong to C17/C06),
-    first cue anywhere from 0 s to 23 h (timecodes and pycaption's timestamp formatting wrap at 24 h: C02's domain), fractional microseconds, 1-3 languages, now and then two cues with the
+    first cue anywhere from 0 s to 99 h (SCC timecodes have two hour digits), fractional microseconds, 1-3 languages, now and then two cues with the
     same timespan (merged by several writers), large sets, odd style values, layouts in %% (and in px/em/c/pt when
     the writer is given the video size)."""
     nl = rng.choice([1, 1, 1, 2, 2, 3])
@@ -206,7 +208,8 @@ def benign_recipe(rng, abs_units=False):
     ncaps = rng.randint(1, 4) if size < 0.95 else (rng.choice([100, 130]) if size < 0.993 else 1005)
     langs = []
     for li, lang in enumerate(rng.sample(docs.LANGS, nl)):
-        t = rng.choice([0, 0, 40, 1000, 5000, 6000, 65000, 3600000, 36000000, 82800000])   # up to 23 h: SMPTE timecodes wrap at 24 h
+        # up to 99 h: SCC timecodes have two hour digits (large sets start early so that they stay below that)
+        t = rng.choice([0, 0, 40, 1000, 5000, 6000, 65000, 3600000, 36000000, 90000000, 356000000]) if ncaps < 50 else rng.choice([0, 1000, 5000])
         caps = []
         n_here = ncaps if li == 0 else rng.randint(1, 3)
         for ci in range(n_here):
@@ -237,7 +240,9 @@ def benign_recipe(rng, abs_units=False):
             t += dur + 5000 + rng.choice([0, 500, 7000])
         langs.append({"lang": lang, "captions": caps, "layout": rng.choice(layouts) if layouts and rng.random() < 0.3 else None})
     rec = {"langs": langs, "styles": "default" if rng.random() < 0.5 else rng.choice([
-        {"c1": {"color": "blue", "font-size": "10pt"}}, {"c1": {"italics": True}, "p": {"text-align": "center"}}, {}])}
+        {"c1": {"color": "blue", "font-size": "10pt"}}, {"c1": {"italics": True}, "p": {"text-align": "center"}}, {},
+        {"c1": {"color": "rgb(255, 255, 0)", "font-family": "Courier New"}}, {"p": {"font-family": "Arial, sans-serif", "color": "#fff"}},
+        {"c1": {"lang": langs[0]["lang"]}, "c 2": {"color": "red"}}])}
     if layouts and rng.random() < 0.2:
         rec["layout"] = rng.choice(layouts)
     return rec
